@@ -764,7 +764,7 @@ fn main() {
     }
     if args.case.is_none() {
         let mut rng = Rng::new(args.seed);
-        let n = args.n.unwrap_or(if args.thorough() { 2000 } else { 220 });
+        let n = args.n.unwrap_or(if args.thorough() { 1500 } else { 160 });
         for i in 0..n {
             let mut r = rng.fork();
             let case = gen_case(&mut r);
